@@ -1001,6 +1001,12 @@ class NetworkGraph(AbstractBaseIR):
                     # result that numpy's dot gives for a 2D matrix times a scalar.
                     weight_mat = weight_mat.squeeze(axis=1)
                     eq = f"{t_str_final} = {w_str} * {s_str_final}"
+                elif len(tidx_unique) == 1:
+                    # Single target: the target variable (or its index) is a
+                    # scalar at runtime, so the projection has to be a scalar as well.
+                    # A 1D weight vector turns the matrix product into an inner product.
+                    weight_mat = weight_mat.squeeze(axis=0)
+                    eq = f"{t_str_final} = matvec({w_str}, {s_str_final})"
                 else:
                     eq = f"{t_str_final} = matvec({w_str}, {s_str_final})"
                 args[w_str] = {'vtype': 'constant', 'value': weight_mat, 'dtype': 'float', 'shape': weight_mat.shape}
